@@ -48,3 +48,45 @@ Theorem C02_Ht_hermitian :
     adj (sol "H_tilde") == sol "H_tilde".
 Proof. intros. eapply Ht_herm_general; eassumption. Qed.
 Print Assumptions C02_Ht_hermitian.
+
+(** Two-block optimisation (two_block_optimized = True): same conclusions under [wiring_tb]. *)
+
+Theorem C02_UdU_two_block :
+  forall (T : Type) (r0 r1 : T) (add mul sub : T -> T -> T) (opp : T -> T) (req : T -> T -> Prop)
+         (Ro : @Ring_ops T r0 r1 add mul sub opp req) (Rg : @Ring T r0 r1 add mul sub opp req Ro)
+         (BA : BlockAlg T) (rflag : string -> T -> T) (fenv : string -> list T -> T) (sol : string -> T),
+    solution (gflag_of true) rflag fenv sol main_alg ->
+    wiring_tb rflag fenv (sol "H") ->
+    sol "U†" * sol "U" == 1.
+Proof. intros. eapply unitary_l_tb; eassumption. Qed.
+Print Assumptions C02_UdU_two_block.
+
+Theorem C02_UUd_two_block :
+  forall (T : Type) (r0 r1 : T) (add mul sub : T -> T -> T) (opp : T -> T) (req : T -> T -> Prop)
+         (Ro : @Ring_ops T r0 r1 add mul sub opp req) (Rg : @Ring T r0 r1 add mul sub opp req Ro)
+         (BA : BlockAlg T) (rflag : string -> T -> T) (fenv : string -> list T -> T) (sol : string -> T),
+    solution (gflag_of true) rflag fenv sol main_alg ->
+    wiring_tb rflag fenv (sol "H") ->
+    sol "U" * sol "U†" == 1.
+Proof. intros. eapply unitary_r_tb; eassumption. Qed.
+Print Assumptions C02_UUd_two_block.
+
+Theorem C02_adjoint_two_block :
+  forall (T : Type) (r0 r1 : T) (add mul sub : T -> T -> T) (opp : T -> T) (req : T -> T -> Prop)
+         (Ro : @Ring_ops T r0 r1 add mul sub opp req) (Rg : @Ring T r0 r1 add mul sub opp req Ro)
+         (BA : BlockAlg T) (rflag : string -> T -> T) (fenv : string -> list T -> T) (sol : string -> T),
+    solution (gflag_of true) rflag fenv sol main_alg ->
+    wiring_tb rflag fenv (sol "H") ->
+    adj (sol "U") == sol "U†".
+Proof. intros. eapply adjoint_tb; eassumption. Qed.
+Print Assumptions C02_adjoint_two_block.
+
+Theorem C02_Ht_hermitian_two_block :
+  forall (T : Type) (r0 r1 : T) (add mul sub : T -> T -> T) (opp : T -> T) (req : T -> T -> Prop)
+         (Ro : @Ring_ops T r0 r1 add mul sub opp req) (Rg : @Ring T r0 r1 add mul sub opp req Ro)
+         (BA : BlockAlg T) (rflag : string -> T -> T) (fenv : string -> list T -> T) (sol : string -> T),
+    solution (gflag_of true) rflag fenv sol main_alg ->
+    wiring_tb rflag fenv (sol "H") ->
+    adj (sol "H_tilde") == sol "H_tilde".
+Proof. intros. eapply Ht_herm_tb; eassumption. Qed.
+Print Assumptions C02_Ht_hermitian_two_block.
